@@ -13,6 +13,9 @@ def gen(ctx):
     U2 = universe(2, ['a', 'b'])
     U3 = universe(3, ['a', 'b', 'c'])
     pairs = [[x, y] for x in U2 for y in U2]
+    # the same pairs with different default VALUES on the right operand (every third pair)
+    other = [[(q[0], q[1], (2 if q[2] is not None else None), q[3], q[4]) for q in y] for y in U2]
+    pairs += [[x, y2] for i, x in enumerate(U2) for j, y2 in enumerate(other) if (i + j) % 3 == 0]
     triples = []
     n = 15000 if ctx.quick else 200000
     for _ in range(n):
